@@ -163,6 +163,9 @@ Proof.
     unfold Lower.R. cbn [forallb plain_instr BS.instr_ok BS.reg_lt BS.rop_lt]. rewrite Ht', Hp. auto.
   - destruct (alook v (l_lv st)) as [r|] eqn:E; inv_ok H. split; [reflexivity|].
     cbn. eapply lt16; [exact (i_alen _ I)|exact (i_lv _ I _ _ E)].
+  - unfold rf_lookup in H. destruct (alook r (l_rf st)) as [[[] k]|] eqn:E; try discriminate; inv_ok H.
+    + destruct (i_rfM _ I _ _ E) as [(m & X)|X]; discriminate.
+    + split; [reflexivity|]. cbn. eapply lt16; [exact (i_mlen _ I)|exact (proj2 (i_rf _ I _ _ E))].
 Qed.
 
 (* ------------------------------------------------------------------ the lowest unused id is at most the number of live handles *)
